@@ -631,7 +631,10 @@ func cmdRun(prop string, o runOpts) int {
 		}
 		for j := range modelCases {
 			r := results[nViol+j]
-			ok := r.Result == "pass" || onlyFindingLabels(r.Result)
+			// (the allocation marker only matters when a symbolic allocation finding is being confirmed:
+			// a legitimately large run, e.g. a 10001-node import, may exceed the driver's threshold)
+			res := strings.TrimSuffix(r.Result, " alloc>2^20")
+			ok := res == "pass" || onlyFindingLabels(res)
 			why := "native result " + r.Result
 			if ok {
 				ok, why = obsEqual(modelCases[j].Obs, r.Obs)
